@@ -14,7 +14,7 @@ RULE = (
     "tasks of one list/tuple yield started in written order; never-yielded tasks never started; every task the "
     "sequential reference awaited is computed; per-task body step counts and every received value equal the "
     "reference (a doubled or skipped resumption shifts the values, which are unique per yield). "
-    "(b) deep chains (up to 250000 awaiting tasks, far beyond the recursion limit, plain and with a batch item per "
+    "(b) ladder DAGs (two tasks per level, each awaited by both tasks of the level above, 30-3000 levels, all blocked on one batch: every body runs once, one flush, and the run finishes - a scheduler that re-walks shared blocked subtrees needs 2^levels steps), deep chains (up to 250000 awaiting tasks, far beyond the recursion limit, plain and with a batch item per "
     "level) and wide fans (10000 siblings) with closed-form oracles; termination is decided by exact step counts and "
     "a watchdog with re-run-alone protocol. distinct = program hash / (shape, size); non-trivial = at least 2 task "
     "instances and 1 flush, or any deep/wide case."
@@ -41,8 +41,8 @@ PROFILE = gen.profile(
 MONITORS = ("resume", "afterdone", "order", "orphans", "completion", "refeq")
 HOWS = ["call", "value", "yielded", "yielded_value"]
 
-DEEP_QUICK = [("chain", 20000), ("chain_item", 1500), ("fan", 10000), ("chain_struct", 5000), ("fan_item", 3000), ("comb", 300)]
-DEEP_THOROUGH = DEEP_QUICK + [("chain", 100000), ("chain", 250000), ("chain_item", 4000), ("fan", 60000), ("chain_struct", 50000), ("comb", 1500)]
+DEEP_QUICK = [("chain", 20000), ("chain_item", 1500), ("fan", 10000), ("chain_struct", 5000), ("fan_item", 3000), ("comb", 300), ("ladder", 30), ("ladder", 400)]
+DEEP_THOROUGH = DEEP_QUICK + [("ladder", 60), ("ladder", 3000), ("chain", 100000), ("chain", 250000), ("chain_item", 4000), ("fan", 60000), ("chain_struct", 50000), ("comb", 1500)]
 
 
 def _shrunk(prog, how, pol, cs, oracle):
@@ -222,9 +222,37 @@ def run_deep(unit, progress):
         got = yield [comb_level.asynq(d - 1, 0)] + [leaf.asynq(0) for _ in range(3)]
         return got[0] + 1
 
+    ladder_tasks = {}
+
+    @A()
+    def rung(level, side):
+        runs[2 * level + side] += 1
+        if level == n:
+            v = yield harness.HItem(rt, 0, "l%d" % side, ("ladder", side))
+            return 1
+        a = ladder_get(level + 1, 0)
+        b = ladder_get(level + 1, 1)
+        got = yield a, b
+        if not (a.is_computed() and b.is_computed()):
+            bad.append(("resumed-while-uncomputed", level))
+        return (got[0] + got[1]) % 1000003
+
+    def ladder_get(level, side):
+        # two tasks per level, each awaited by BOTH tasks of the level above (2n+2 tasks in all)
+        if (level, side) not in ladder_tasks:
+            ladder_tasks[(level, side)] = rung.asynq(level, side)
+        return ladder_tasks[(level, side)]
+
     rt.attach()
     try:
-        if shape == "chain":
+        if shape == "ladder":
+            runs = [0] * (2 * n + 4)
+            v = ladder_get(0, 0).value()
+            flushes = sum(1 for e in rt.log if e[0] == "flush_body")
+            started = sum(runs)
+            ok = flushes == 1 and started == 2 * n + 1 and all(r <= 1 for r in runs) and all(t.is_computed() for t in ladder_tasks.values() if t is not ladder_tasks.get((0, 1)))
+            detail = {"value": v, "flushes": flushes, "bodies_started": started, "tasks": 2 * n + 1}
+        elif shape == "chain":
             v = chain(n)
             ok = v == n and all(r == 1 for r in runs[: n + 1])
             detail = {"value": v, "bodies_not_run_once": sum(1 for r in runs[: n + 1] if r != 1)}
